@@ -722,6 +722,10 @@ class unyt_array(np.ndarray):
                     new_units, self.dtype
                 )
 
+            if not self.flags.writeable:
+                # refuse before relabelling or retyping: a failed in-place
+                # conversion must leave the array as it was
+                raise ValueError("assignment destination is read-only")
             values = self.d
             # if our dtype is an integer do the following somewhat awkward
             # dance to change the dtype in-place. We can't use astype
@@ -1852,6 +1856,10 @@ class unyt_array(np.ndarray):
             else:
                 out = out[0]
                 if out.dtype.kind in ("u", "i"):
+                    if not out.flags.writeable:
+                        # refuse before retyping the buffer: a failed call
+                        # must leave out as it was
+                        raise ValueError("output array is read-only")
                     new_dtype = "f" + str(out.dtype.itemsize)
                     float_values = out.astype(new_dtype)
                     out.dtype = new_dtype
